@@ -666,12 +666,27 @@ impl<'a> Interp<'a> {
     }
 }
 
+/// The text of an error returned by mahf, prefixed with a tag for the `StateError` variant found in its chain.
+pub fn error_text(e: &eyre::Report) -> String {
+    let tag = e
+        .chain()
+        .find_map(|c| match c.downcast_ref::<mahf::StateError>() {
+            Some(mahf::StateError::RequiredMissing(..)) => Some("[required-missing] "),
+            Some(mahf::StateError::NotFound(..)) => Some("[not-found] "),
+            Some(_) => Some("[state-error] "),
+            None => None,
+        })
+        .unwrap_or("");
+    format!("{}{:#}", tag, e)
+}
+
 pub fn classify_error(msg: &str) -> Fail {
     if let Some(i) = msg.find("fault@") {
         let num: String = msg[i + 6..].chars().take_while(|c| c.is_ascii_digit()).collect();
         return Fail::Fault(num.parse().unwrap_or(u32::MAX));
     }
-    if msg.contains("is a requirement of") || msg.contains("is missing") {
+    // `error_text` (below) tags errors by their type; the wording of mahf's messages is not relied upon
+    if msg.starts_with("[required-missing]") {
         return Fail::RequiredMissing;
     }
     Fail::CounterMissing
